@@ -32,13 +32,13 @@ package eventlogger
 //@   ensures C02/fresh-graph-zero-sinks: !(t == "" || successThreshold < 0) && !old(t in b.graphs) ==> b.graphs[t].successThresholdSinks == 0
 //@   ensures wf: wfGraphs(b)
 //@   ensures unlocked: noLocksHeld()
-//@   ensures C04/single-critical-section: acquisitions(b.lock) <= old(acquisitions(b.lock)) + 1
+//@   ensures C04+C07/single-critical-section: acquisitions(b.lock) <= old(acquisitions(b.lock)) + 1
 
 //@ func (*Broker).SuccessThreshold(t) (n, ok)
 //@   requires b != nil && noLocksHeld() && wfGraphs(b)
 //@   ensures C02/reads-back: ok == (t in b.graphs) && (ok ==> n == b.graphs[t].successThreshold) && (!ok ==> n == 0)
 //@   ensures unlocked: noLocksHeld()
-//@   ensures C04/single-critical-section: acquisitions(b.lock) <= old(acquisitions(b.lock)) + 1
+//@   ensures C04+C07/single-critical-section: acquisitions(b.lock) <= old(acquisitions(b.lock)) + 1
 
 //@ func (*Broker).SetSuccessThresholdSinks(t, successThresholdSinks) (err)
 //@   requires b != nil && noLocksHeld() && wfGraphs(b)
@@ -49,13 +49,13 @@ package eventlogger
 //@   ensures C02/fresh-graph-zero-threshold: !(t == "" || successThresholdSinks < 0) && !old(t in b.graphs) ==> b.graphs[t].successThreshold == 0
 //@   ensures wf: wfGraphs(b)
 //@   ensures unlocked: noLocksHeld()
-//@   ensures C04/single-critical-section: acquisitions(b.lock) <= old(acquisitions(b.lock)) + 1
+//@   ensures C04+C07/single-critical-section: acquisitions(b.lock) <= old(acquisitions(b.lock)) + 1
 
 //@ func (*Broker).SuccessThresholdSinks(t) (n, ok)
 //@   requires b != nil && noLocksHeld() && wfGraphs(b)
 //@   ensures C02/reads-back: ok == (t in b.graphs) && (ok ==> n == b.graphs[t].successThresholdSinks) && (!ok ==> n == 0)
 //@   ensures unlocked: noLocksHeld()
-//@   ensures C04/single-critical-section: acquisitions(b.lock) <= old(acquisitions(b.lock)) + 1
+//@   ensures C04+C07/single-critical-section: acquisitions(b.lock) <= old(acquisitions(b.lock)) + 1
 
 // ---- registration options ----
 
@@ -116,7 +116,7 @@ package eventlogger
 //@   ensures C06+C07/others-untouched: (forall i NodeID :: i != id ==> (i in b.nodes) == old(i in b.nodes) && b.nodes[i] == old(b.nodes[i])) && (forall u *nodeUsage :: old(allocated(u)) ==> u.node == old(u.node) && u.referenceCount == old(u.referenceCount) && u.registrationPolicy == old(u.registrationPolicy))
 //@   ensures wf: wfNodes(b)
 //@   ensures unlocked: noLocksHeld()
-//@   ensures C04/single-critical-section: acquisitions(b.lock) <= old(acquisitions(b.lock)) + 1
+//@   ensures C04+C07/single-critical-section: acquisitions(b.lock) <= old(acquisitions(b.lock)) + 1
 
 //@ func (*Broker).detachNode(id, force) (node, err)
 //@   requires b != nil && held(b.lock) == 2 && wfNodes(b)
@@ -155,7 +155,7 @@ package eventlogger
 //@   ensures C06/others-untouched: forall j NodeID :: j != id ==> (j in b.nodes) == old(j in b.nodes) && b.nodes[j] == old(b.nodes[j]) && (old(j in b.nodes) ==> b.nodes[j].referenceCount == old(b.nodes[j].referenceCount))
 //@   ensures wf: wfNodes(b)
 //@   ensures unlocked: noLocksHeld()
-//@   ensures C04/single-critical-section: acquisitions(b.lock) <= old(acquisitions(b.lock)) + 1
+//@   ensures C04+C07/single-critical-section: acquisitions(b.lock) <= old(acquisitions(b.lock)) + 1
 
 // ---- pipelines ----
 
@@ -194,7 +194,7 @@ package eventlogger
 //@   requires b != nil && noLocksHeld() && wfGraphs(b)
 //@   ensures C05/any-registered-iff: found <==> ((e in b.graphs) && (exists k PipelineID :: k in view(b.graphs[e].roots.m)))
 //@   ensures unlocked: noLocksHeld()
-//@   ensures C04/single-critical-section: acquisitions(b.lock) <= old(acquisitions(b.lock)) + 1
+//@   ensures C04+C07/single-critical-section: acquisitions(b.lock) <= old(acquisitions(b.lock)) + 1
 //@   rangeloop 1 invariant !found && (forall k PipelineID :: !seen(1, k))
 
 //@ func (*Broker).RemovePipeline(t, id) (err)
@@ -210,7 +210,7 @@ package eventlogger
 //@   ensures wf-links-b: wfpLinksB(b)
 //@   ensures wf-distinct: wfpDistinct(b)
 //@   ensures unlocked: noLocksHeld()
-//@   ensures C04/single-critical-section: acquisitions(b.lock) <= old(acquisitions(b.lock)) + 1
+//@   ensures C04+C07/single-critical-section: acquisitions(b.lock) <= old(acquisitions(b.lock)) + 1
 
 // ---- linked chains ----
 // Ghost description of the chain built by linkNodes: root.chain[k] is the k-th linked node, root.clen the length.
@@ -280,7 +280,7 @@ package eventlogger
 //@   ensures C06/failure-changes-no-count: err != nil ==> (forall u *nodeUsage :: old(allocated(u)) ==> u.referenceCount == old(u.referenceCount))
 //@   ensures C06/one-reference-per-listed-node: err == nil ==> (forall x NodeID :: (x in b.nodes) ==> b.nodes[x].referenceCount == old(b.nodes[x].referenceCount) - ((old(def.EventType in b.graphs) && old(def.PipelineID in view(b.graphs[def.EventType].roots.m)) && listed(old(view(b.graphs[def.EventType].roots.m)[def.PipelineID].rootNode), x) && old(b.nodes[x].referenceCount) > 0) ? 1 : 0) + ((x in def.NodeIDs) ? 1 : 0))
 //@   ensures unlocked: noLocksHeld()
-//@   ensures C04/single-critical-section: acquisitions(b.lock) <= old(acquisitions(b.lock)) + 1
+//@   ensures C04+C07/single-critical-section: acquisitions(b.lock) <= old(acquisitions(b.lock)) + 1
 //@   rangeloop 1 invariant pol == AllowOverwrite && !seen(1, def.PipelineID)
 //@   loop 1 invariant len(nodes) == len(def.NodeIDs) && (forall j int :: 0 <= j && j <= rangeindex ==> (def.NodeIDs[j] in b.nodes) && nodes[j] == b.nodes[def.NodeIDs[j]].node)
 //@   ghost call (*graph).doValidate#1 with root = root, k = 0
@@ -349,7 +349,7 @@ package eventlogger
 //@   ensures C01/unknown-type-delivers-nothing: !old(t in b.graphs) ==> err != nil && ev_n == old(ev_n)
 //@   ensures C01/event-carries-type-and-payload: old(t in b.graphs) ==> ev_kind(old(ev_n)) == "spawn:(*graph).process$1" && ev_a(old(ev_n), 0) == old(b.graphs[t]) && ev_a(old(ev_n), 1) == valof(ctx) && (forall E *Event :: E == ev_a(old(ev_n), 3) ==> fresh(E) && E.Type == t && E.Payload == payload && E.Formatted != nil && len(E.Formatted) == 0)
 //@   ensures unlocked: noLocksHeld()
-//@   ensures C04/single-critical-section: acquisitions(b.lock) <= old(acquisitions(b.lock)) + 1
+//@   ensures C04+C07/single-critical-section: acquisitions(b.lock) <= old(acquisitions(b.lock)) + 1
 
 // ---- Reopen (C20) ----
 
@@ -402,7 +402,7 @@ package eventlogger
 //@   ensures C20/nil-means-every-node-reopened: err == nil ==> (forall t EventType, p PipelineID, j int :: (t in b.graphs) && (p in view(b.graphs[t].roots.m)) && 0 <= j && j < view(b.graphs[t].roots.m)[p].rootNode.clen ==> newCallsOn("Node.Reopen", view(b.graphs[t].roots.m)[p].rootNode.chain[j].node) > 0)
 //@   ensures C20/failure-is-reported-and-carried: forall i int :: old(ev_n) <= i && i < ev_n && ev_kind(i) == "call:eventlogger.Node.Reopen" && ev_a(i, 5) != 0 ==> err != nil && carries(err, ev_a(i, 5), ev_a(i, 6))
 //@   ensures unlocked: noLocksHeld()
-//@   ensures C04/single-critical-section: acquisitions(b.lock) <= old(acquisitions(b.lock)) + 1
+//@   ensures C04+C07/single-critical-section: acquisitions(b.lock) <= old(acquisitions(b.lock)) + 1
 //@   ghost at loop 1 backedge havoc Broker.gpos, Broker.gtyp: (forall t EventType :: ((t in b.graphs) && b.graphs[t] == g ==> b.gpos[t] == len(graphs) - 1 && b.gtyp[len(graphs) - 1] == t) && (!((t in b.graphs) && b.graphs[t] == g) ==> b.gpos[t] == old(b.gpos[t]))) && (forall a int :: a != len(graphs) - 1 ==> b.gtyp[a] == old(b.gtyp[a]))
 //@   loop 1 invariant held(b.lock) == 1 && ev_n == old(ev_n)
 //@   loop 1 invariant L1a: forall t EventType :: visited(t) ==> 0 <= b.gpos[t] && b.gpos[t] < len(graphs) && graphs[b.gpos[t]] == b.graphs[t]
@@ -494,7 +494,7 @@ package eventlogger
 //@   ensures wf-links-b: wfpLinksB(b)
 //@   ensures wf-distinct: wfpDistinct(b)
 //@   ensures unlocked: noLocksHeld()
-//@   ensures C04/single-critical-section: acquisitions(b.lock) <= old(acquisitions(b.lock)) + 1
+//@   ensures C04+C07/single-critical-section: acquisitions(b.lock) <= old(acquisitions(b.lock)) + 1
 //@   loop 1 invariant held(b.lock) == 2 && wfNodes(b) && detached != nil && fresh(detached) && calls("Closer.Close") == old(calls("Closer.Close"))
 //@   loop 1 invariant forall x NodeID :: !(x in nodes[:rangeindex+1]) ==> (x in b.nodes) == old(x in b.nodes) && b.nodes[x] == old(b.nodes[x]) && (old(x in b.nodes) ==> b.nodes[x].referenceCount == old(b.nodes[x].referenceCount)) && !(x in detached)
 //@   loop 1 invariant forall x NodeID :: (x in nodes[:rangeindex+1]) && old(x in b.nodes) && old(b.nodes[x].referenceCount) <= 1 ==> !(x in b.nodes) && (old(b.nodes[x].node) != nil ==> (x in detached) && detached[x] == old(b.nodes[x].node))
@@ -512,7 +512,7 @@ package eventlogger
 //@   ensures C06/last-reference-unregisters: ok ==> (forall x NodeID :: old(registeredPipelineLists(b, t, id, x)) && old(x in b.nodes) && old(b.nodes[x].referenceCount) <= 1 ==> !(x in b.nodes))
 //@   ensures C06/shared-nodes-stay-registered: ok ==> (forall x NodeID :: old(registeredPipelineLists(b, t, id, x)) && old(x in b.nodes) && old(b.nodes[x].referenceCount) > 1 ==> (x in b.nodes) && b.nodes[x] == old(b.nodes[x]) && b.nodes[x].referenceCount == old(b.nodes[x].referenceCount) - 1)
 //@   ensures unlocked: noLocksHeld()
-//@   ensures C04/single-critical-section: acquisitions(b.lock) <= old(acquisitions(b.lock)) + 1
+//@   ensures C04+C07/single-critical-section: acquisitions(b.lock) <= old(acquisitions(b.lock)) + 1
 //@   loop 1 invariant noLocksHeld() && calls("Closer.Close") <= entry(calls("Closer.Close")) + produced()
 
 // ---- Event format table (C14, C19) ----
